@@ -37,7 +37,7 @@ def gen_ir(r, fmt):
         if k < 0.25:
             p["doc"] = r.choice(TRIGGER_DOCS)
         elif k < 0.3 and p.get("typ") == "str":
-            p["default"] = r.choice(["'a'", '"b"', "it's", "x y"])
+            p["default"] = r.choice(["'a'", '"b"', "it's", "x y", "'\"N/A\"'", "\"'x'\""])  # incl. two layers of quote characters
         elif k < 0.38:
             p["doc"] = r.choice(["and so on...", "sizes, strides, etc..", "see above....", "the usual suspects, etc..."])  # several trailing dots
         elif k < 0.46:
@@ -189,6 +189,8 @@ def compare(chk, case, views):
                         if ta == "Optional[%s]" % tb or tb == "Optional[%s]" % ta:
                             sig["optional_toggle"] = True
                     d_in = ir["params"].get(name, {}).get("default") if ent == "param" else None
+                    if f == "default" and isinstance(d_in, str) and len(d_in) > 2 and d_in[0] == d_in[-1] and d_in[0] in "'\"":
+                        sig["quote_wrapped_default"] = True  # root cause: set_value / get_value strip one pair of enclosing quotes from a string default per round
                     if _code_default(d_in):
                         if f == "doc" and "." in d_in:
                             sig["code_default_dot"] = True  # root cause: extract_default stops at a '.' that is not followed by a digit, also inside the backticks
@@ -278,6 +280,15 @@ def run(chk: core.Check) -> int:
         for style in styles:
             for _ in range(k_fmt // len(styles)):
                 cases.append((gen_ir(rng, fmt), fmt, style, rng.random() < 0.5, 3 if chk.quick else 4))
+    # fixed corners (every seed): string defaults wrapped in two layers of quote characters, through every format that carries defaults in code
+    from collections import OrderedDict as _OD
+
+    for fmt in ("function", "class", "pydantic", "argparse", "docstring-rest"):
+        for dflt in ("'\"N/A\"'", "\"'x'\""):
+            for edd in (True, False):
+                cases.append(({"name": "F", "doc": "Summary line.", "type": "static", "returns": None,
+                               "params": _OD([("label", {"typ": "str", "doc": "the label", "default": dflt}), ("count", {"typ": "int", "doc": "a count", "default": 3})])},
+                              fmt, "rest", edd, 3 if chk.quick else 4))
     res = core.guarded_map(impl_rounds, cases, 30.0)
     dist = {}
     for case, views in zip(cases, res):
